@@ -77,3 +77,20 @@ func (sc *wrappedSampledConn) Read(b []byte) (int, error) {
 
 	return sc.ManetTCPConnInterface.Read(b)
 }
+
+// WriteTo implements io.WriterTo. Without it the embedded TCP connection's
+// WriteTo would be promoted, and io.Copy(dst, conn) would skip the bytes that
+// were peeked but not read yet.
+func (sc *wrappedSampledConn) WriteTo(w io.Writer) (int64, error) {
+	var total int64
+	if int(sc.bytesPeeked) != len(sc.peekedBytes) {
+		n, err := w.Write(sc.peekedBytes[sc.bytesPeeked:])
+		sc.bytesPeeked += uint8(n)
+		total += int64(n)
+		if err != nil {
+			return total, err
+		}
+	}
+	n, err := sc.ManetTCPConnInterface.WriteTo(w)
+	return total + n, err
+}
